@@ -99,6 +99,7 @@ func naive(es []ent, a netip.Addr) bool {
 type stub struct {
 	calls int
 	q     middleware.Queryer
+	pq    middleware.Queryer
 }
 
 func (s *stub) Name() string { return "stub" }
@@ -109,16 +110,30 @@ func (s *stub) ServeDNS(ctx context.Context, ch *middleware.Chain) {
 	_ = ch.Writer.WriteMsg(m)
 	ch.Cancel()
 }
-func (s *stub) SetQueryer(q middleware.Queryer) { s.q = q }
+func (s *stub) SetQueryer(q middleware.Queryer)         { s.q = q }
+func (s *stub) SetPrefetchQueryer(q middleware.Queryer) { s.pq = q }
 
 var (
 	curSet   *ipset.Set
 	curEnts  []ent
 	curACL   *accesslist.List
 	aclEnts  []ent
-	curViews *views.Views
-	viewEnts [][]ent
+	curViews  *views.Views
+	viewEnts  [][]ent
+	viewTypes [][]uint16
 )
+
+var typeByName = map[string]uint16{"a": dns.TypeA, "aaaa": dns.TypeAAAA, "txt": dns.TypeTXT}
+
+func viewRecord(t uint16, i int) string {
+	switch t {
+	case dns.TypeAAAA:
+		return fmt.Sprintf("x.viewzone. 60 IN AAAA 2001:db8::%d", i+1)
+	case dns.TypeTXT:
+		return fmt.Sprintf("x.viewzone. 60 IN TXT \"v%d\"", i+1)
+	}
+	return fmt.Sprintf("x.viewzone. 60 IN A 10.9.0.%d", i+1)
+}
 
 func writerFor(a netip.Addr, internal bool, proto string) *mock.Writer {
 	if internal {
@@ -200,35 +215,64 @@ func exec(op string) vlib.Res {
 		}
 		return vlib.Res{Impl: fmt.Sprintf("next=%s written=%s", vlib.B(got), vlib.B(w.Written())), Oracle: or, Tags: "nt"}
 	case "views new":
-		viewEnts = nil
+		// views new <ents>|<types>;<ents>|<types>;…   types: a+aaaa+txt or none
+		viewEnts, viewTypes = nil, nil
 		var vcs []config.ViewConfig
 		for i, part := range strings.Split(f[2], ";") {
-			es := parseEnts(part)
-			viewEnts = append(viewEnts, es)
-			vcs = append(vcs, config.ViewConfig{Zone: "viewzone.", Networks: texts(es),
-				Answers: []string{fmt.Sprintf("x.viewzone. 60 IN A 10.9.0.%d", i+1)}})
+			es, ts, _ := strings.Cut(part, "|")
+			ents := parseEnts(es)
+			viewEnts = append(viewEnts, ents)
+			var types []uint16
+			var answers []string
+			if ts != "none" && ts != "" {
+				for _, tn := range strings.Split(ts, "+") {
+					types = append(types, typeByName[tn])
+					answers = append(answers, viewRecord(typeByName[tn], i))
+				}
+			}
+			viewTypes = append(viewTypes, types)
+			vcs = append(vcs, config.ViewConfig{Zone: "viewzone.", Networks: texts(ents), Answers: answers})
 		}
 		curViews = views.New(&config.Config{Views: vcs})
 		return vlib.Res{Impl: "ok"}
 	case "views serve":
+		// views serve <addr> <internal> <qtype name>
 		a := parseAddr(f[2])
 		internal := f[3] == "t"
+		qt := typeByName[f[4]]
 		st := &stub{}
 		ch := middleware.NewChain([]middleware.Handler{curViews, st})
 		w := writerFor(a, internal, "udp")
-		ch.Reset(w, query())
+		req := new(dns.Msg)
+		req.SetQuestion("x.viewzone.", qt)
+		ch.Reset(w, req)
 		ch.Next(context.Background())
 		got := "none"
 		if st.calls == 0 && w.Written() && len(w.Msg().Answer) == 1 {
-			if arr, ok := w.Msg().Answer[0].(*dns.A); ok {
-				got = fmt.Sprint(int(arr.A.To4()[3]))
+			switch rr := w.Msg().Answer[0].(type) {
+			case *dns.A:
+				got = fmt.Sprint(int(rr.A.To4()[3]))
+			case *dns.AAAA:
+				got = fmt.Sprint(int(rr.AAAA[15]))
+			case *dns.TXT:
+				got = strings.TrimPrefix(rr.Txt[0], "v")
+			}
+			if w.Msg().Answer[0].Header().Rrtype != qt {
+				got = "wrong-type"
 			}
 		}
+		// property oracle: the FIRST view (declaration order) containing the
+		// client decides; it answers iff it holds the queried type, and no
+		// later view is consulted.
 		want := "none"
 		if !internal {
 			for i, es := range viewEnts {
 				if naive(es, a) {
-					want = fmt.Sprint(i + 1)
+					for _, t := range viewTypes[i] {
+						if t == qt {
+							want = fmt.Sprint(i + 1)
+						}
+					}
 					break
 				}
 			}
@@ -236,6 +280,9 @@ func exec(op string) vlib.Res {
 		or := "ok"
 		if got != want {
 			or = fmt.Sprintf("FAIL sig=views/serve/wrong-view want=%s got=%s", want, got)
+		}
+		if (got == "none") != (st.calls == 1) {
+			or = fmt.Sprintf("FAIL sig=views/serve/fallthrough-mismatch got=%s next=%d", got, st.calls)
 		}
 		return vlib.Res{Impl: "view=" + got, Oracle: or, Tags: "nt"}
 	case "sub query":
@@ -256,18 +303,22 @@ func exec(op string) vlib.Res {
 		p := reg.Build(cfg)
 		middleware.VerifAutoWire(p)
 		n := vlib.Atoi(f[2])
-		answered := 0
+		answered, panswered := 0, 0
 		for i := 0; i < n; i++ {
 			resp, err := st.q.Query(context.Background(), query())
 			if err == nil && resp != nil && len(resp.Answer) == 0 {
 				answered++
 			}
+			resp, err = st.pq.Query(context.Background(), query())
+			if err == nil && resp != nil && len(resp.Answer) == 0 {
+				panswered++
+			}
 		}
 		or := "ok"
-		if answered != n || st.calls != n {
-			or = fmt.Sprintf("FAIL sig=sub/internal-query-hit-client-policy answered=%d stub=%d of %d", answered, st.calls, n)
+		if answered != n || panswered != n || st.calls != 2*n {
+			or = fmt.Sprintf("FAIL sig=sub/internal-query-hit-client-policy answered=%d prefetch-answered=%d stub=%d of %d", answered, panswered, st.calls, n)
 		}
-		return vlib.Res{Impl: fmt.Sprintf("answered=%d stub=%d", answered, st.calls), Oracle: or, Tags: "nt"}
+		return vlib.Res{Impl: fmt.Sprintf("answered=%d prefetch=%d stub=%d", answered, panswered, st.calls), Oracle: or, Tags: "nt"}
 	}
 	return vlib.Res{Impl: "bad-op"}
 }
@@ -449,15 +500,23 @@ func gen(r *vlib.R, n int, tier string, emit func(string)) {
 			nv := 1 + r.Intn(4)
 			var parts []string
 			var pool []netip.Prefix
+			tsets := []string{"a", "aaaa", "txt", "a+aaaa", "a+txt", "aaaa+txt", "a+aaaa+txt", "none"}
+			var first string
 			for i := 0; i < nv; i++ {
 				l, p := genList(r, 4)
-				parts = append(parts, l)
+				if i > 0 && r.Chance(1, 2) {
+					l = first // overlapping / identical networks across views
+				}
+				if i == 0 {
+					first = l
+				}
+				parts = append(parts, l+"|"+vlib.Pick(r, tsets))
 				pool = append(pool, p...)
 			}
 			emit("views new " + strings.Join(parts, ";"))
-			q := 3 + r.Intn(6)
+			q := 4 + r.Intn(8)
 			for i := 0; i < q; i++ {
-				emit(fmt.Sprintf("views serve %s %s", genAddr(r, pool), vlib.B(r.Chance(1, 8))))
+				emit(fmt.Sprintf("views serve %s %s %s", genAddr(r, pool), vlib.B(r.Chance(1, 8)), vlib.Pick(r, []string{"a", "aaaa", "txt"})))
 			}
 			n -= q + 1
 		}
